@@ -47,6 +47,41 @@ fn jstr(s: &str) -> String {
     o
 }
 
+// drop lifetime-only generic segments: Foo::<'a>::bar -> Foo::bar, Foo<'a> -> Foo
+fn strip_lt(s: String) -> String {
+    if !s.contains('\'') {
+        return s;
+    }
+    let b: Vec<char> = s.chars().collect();
+    let mut out = String::with_capacity(s.len());
+    let mut i = 0;
+    while i < b.len() {
+        if b[i] == '<' && i + 1 < b.len() && b[i + 1] == '\'' {
+            // find matching '>' with only lifetime chars inside
+            let mut j = i + 1;
+            let mut ok = true;
+            while j < b.len() && b[j] != '>' {
+                let c = b[j];
+                if !(c == '\'' || c == ',' || c == ' ' || c == '_' || c.is_ascii_alphanumeric()) {
+                    ok = false;
+                    break;
+                }
+                j += 1;
+            }
+            if ok && j < b.len() {
+                if out.ends_with("::") {
+                    out.truncate(out.len() - 2);
+                }
+                i = j + 1;
+                continue;
+            }
+        }
+        out.push(b[i]);
+        i += 1;
+    }
+    out
+}
+
 struct Cx<'tcx> {
     tcx: TyCtxt<'tcx>,
     adts: BTreeMap<String, String>,
@@ -54,7 +89,7 @@ struct Cx<'tcx> {
 
 impl<'tcx> Cx<'tcx> {
     fn path(&self, did: DefId) -> String {
-        with_no_trimmed_paths!(self.tcx.def_path_str(did))
+        strip_lt(with_no_trimmed_paths!(self.tcx.def_path_str(did)))
     }
 
     fn ty_str(&self, ty: Ty<'tcx>) -> String {
@@ -657,7 +692,7 @@ impl<'tcx> Cx<'tcx> {
         let impl_self = match tcx.def_kind(parent) {
             DefKind::Impl { .. } => {
                 let t = tcx.type_of(parent).instantiate_identity().skip_norm_wip();
-                self.ty_str(t)
+                strip_lt(self.ty_str(t))
             }
             _ => String::new(),
         };
